@@ -12,7 +12,11 @@ Texts == {"", "t", " "}
 Tails == {"", "u", " "}
 Leaves == {[name |-> n, attrs |-> a, text |-> t, kids |-> <<>>, tail |-> tl] :
              n \in {<<"", "a">>, <<"urn:a", "b">>}, a \in {<<>>, << <<<<"", "k">>, [s |-> "v"]>> >>}, t \in LeafTexts, tl \in Tails}
-KidSeqs == UNION {[1..k -> Leaves] : k \in 0..MaxKids}
+\* leaves whose attribute value looks like a QName: the prefix p is bound on the leaf ITSELF - to the
+\* uri the parent may also bind it to, or to another one (redeclaration inside the fragment)
+QLeaves == {[name |-> n, attrs |-> << <<<<"", "r">>, [p |-> "p", l |-> "q", u |-> u]>> >>, text |-> "", kids |-> <<>>, tail |-> ""] :
+              n \in {<<"", "a">>, <<"urn:a", "b">>}, u \in {"urn:a", "urn:c"}}
+KidSeqs == UNION {[1..k -> Leaves \cup QLeaves] : k \in 0..MaxKids}
 Trees == {[name |-> n, attrs |-> a, text |-> t, kids |-> ks, tail |-> ""] :
             n \in Names, a \in AttrSets, t \in Texts, ks \in KidSeqs}
 
